@@ -70,7 +70,7 @@ def gen(rng, cid, tier):
 
 
 def cases(seed, tier):
-    n = 30 if tier == "quick" else 500
+    n = 60 if tier == "quick" else 500
     rng = random.Random(seed * 1000003 + 20)
     scns = [gen(rng, "C20-%d-%d" % (seed, i), tier) for i in range(n)]
     yield core.Case("C20-batch", scns, {"n": n}, driver="log", flavor="tsan")
